@@ -20,21 +20,28 @@ def Err.is (e : Err) (k : Kind) : Bool := decide (e.leaf = k)
 def timeoutMethod : List Wrap → Kind → Bool
   | [], k => decide (k = .deadline) || decide (k = .netTimeout)
   | .fmt :: _, _ => false
-  | .op :: rest, k => timeoutMethod rest k
+  | .op :: rest, k => timeoutMethod rest k     -- `t, ok := e.Err.(timeout); return ok && t.Timeout()`
+  | .url :: rest, k => timeoutMethod rest k    -- the same type assertion on the direct inner error
 
 /-- `errors.As(err, &e)` with `e net.Error`, then `e.Timeout()`: the FIRST value of the unwrap chain that is a
-`net.Error` answers. `fmt` wrappers are skipped; a `net.OpError` answers (by asking its direct inner error);
-of the innermost errors only `deadline` / `netTimeout` / `netOther` are `net.Error`s. -/
+`net.Error` answers. `fmt` wrappers are skipped; a `net.OpError` / `url.Error` answers (by asking its direct inner
+error, WITHOUT unwrapping it); of the innermost errors only `deadline` / `netTimeout` / `netOther` are `net.Error`s. -/
 def asNetErrorTimeout : List Wrap → Kind → Bool
   | [], k => decide (k = .deadline) || decide (k = .netTimeout)
   | .fmt :: rest, k => asNetErrorTimeout rest k
   | .op :: rest, k => timeoutMethod rest k
+  | .url :: rest, k => timeoutMethod rest k
 
 /-- `tun.IsTimeout` (current): `errors.Is(err, context.DeadlineExceeded)`, else `errors.As(err, &netErr)` → `Timeout()`. -/
 def isTimeout (e : Err) : Bool := e.is .deadline || asNetErrorTimeout e.wraps e.leaf
 
 /-- `tun.IsTimeout` before commit "fix: detect wrapped network timeouts": type assertion on the outermost value only. -/
 def isTimeoutPreFix (e : Err) : Bool := e.is .deadline || timeoutMethod e.wraps e.leaf
+
+/-- `tun.IsTimeout` WITHOUT its first clause (`errors.Is(err, context.DeadlineExceeded)`): only the
+`errors.As(err, &netErr)` → `Timeout()` branch. Not the code; used to state why the first clause is needed
+(`deadline_clause_is_needed`). -/
+def isTimeoutAsOnly (e : Err) : Bool := asNetErrorTimeout e.wraps e.leaf
 
 /-- `tun.IsNoDirect` -/
 def isNoDirect (e : Err) : Bool := e.is .noDirect || e.is .notConnected
